@@ -107,6 +107,12 @@ func classifyStack(ls []string) (string, bool) {
 			fn = strings.TrimPrefix(fn, ".")
 			fn = strings.TrimPrefix(fn, "/")
 			return fn, true
+		case strings.HasPrefix(fn, "verif/sim.FromGo"), strings.HasPrefix(fn, "verif/sim.RawValue"), strings.HasPrefix(fn, "verif/sim.ObjToValue"),
+			strings.HasPrefix(fn, "verif/sim.(*rawWalker)"):
+			// a task thread reading, as any embedding program would, the value that
+			// Get/GetAll on its own object returned: if that read conflicts with what
+			// another execution writes, the two objects share memory
+			return "host-read-of-a-returned-value", true
 		case strings.HasPrefix(fn, "verif/"):
 			return "engine:" + fn, false
 		}
